@@ -114,6 +114,8 @@ func (thr Thresholdizer) AggregateShares(share1, share2 ShamirSecretShare, outSh
 
 // NewCombiner creates a new [Combiner] struct from the parameters and the set of [ShamirPublicPoints]. Note that the other
 // parameter may contain the instantiator's own [ShamirPublicPoint].
+// The points must be pairwise distinct modulo every prime of the moduli chain (Q and P): two points that are congruent
+// modulo one of the primes cannot both take part in a reconstruction, see [Combiner.GenAdditiveShare].
 func NewCombiner(params rlwe.Parameters, own ShamirPublicPoint, others []ShamirPublicPoint, threshold int) Combiner {
 	cmb := Combiner{}
 	cmb.ringQP = params.RingQP()
@@ -135,8 +137,10 @@ func NewCombiner(params rlwe.Parameters, own ShamirPublicPoint, others []ShamirP
 	cmb.lagrangeCoeffs = make(map[ShamirPublicPoint]ring.RNSScalar)
 	for _, spk := range others {
 		if spk != own {
-			cmb.lagrangeCoeffs[spk] = cmb.ringQP.NewRNSScalar()
-			cmb.lagrangeCoeff(own, spk, cmb.lagrangeCoeffs[spk])
+			// a point that is congruent to own modulo one of the primes has no Lagrange coefficient
+			if coeff := cmb.ringQP.NewRNSScalar(); cmb.lagrangeCoeff(own, spk, coeff) {
+				cmb.lagrangeCoeffs[spk] = coeff
+			}
 		}
 	}
 
@@ -145,6 +149,8 @@ func NewCombiner(params rlwe.Parameters, own ShamirPublicPoint, others []ShamirP
 
 // GenAdditiveShare generates a t-out-of-t additive share of the secret from a local aggregated share ownSecret and the set of active identities, identified
 // by their [ShamirPublicPoint]. It stores the resulting additive share in skOut.
+// It returns an error if one of the active points was not given to [NewCombiner] or is congruent to ownPoint modulo one
+// of the primes of the moduli chain.
 func (cmb Combiner) GenAdditiveShare(activesPoints []ShamirPublicPoint, ownPoint ShamirPublicPoint, ownShare ShamirSecretShare, skOut *rlwe.SecretKey) (err error) {
 
 	if len(activesPoints) < cmb.threshold {
@@ -157,7 +163,10 @@ func (cmb Combiner) GenAdditiveShare(activesPoints []ShamirPublicPoint, ownPoint
 	for _, active := range activesPoints[:cmb.threshold] {
 		//Lagrange Interpolation with the public threshold key of other active players
 		if active != ownPoint {
-			cmb.tmp1 = cmb.lagrangeCoeffs[active]
+			var ok bool
+			if cmb.tmp1, ok = cmb.lagrangeCoeffs[active]; !ok {
+				return fmt.Errorf("cannot GenAdditiveShare: active point %d is unknown to the Combiner or congruent to the own point modulo one of the moduli", active)
+			}
 			cmb.ringQP.MulRNSScalar(prod, cmb.tmp1, prod)
 		}
 	}
@@ -166,16 +175,25 @@ func (cmb Combiner) GenAdditiveShare(activesPoints []ShamirPublicPoint, ownPoint
 	return
 }
 
-func (cmb Combiner) lagrangeCoeff(thisKey ShamirPublicPoint, thatKey ShamirPublicPoint, lagCoeff []uint64) {
+// lagrangeCoeff sets lagCoeff to thatKey/(thatKey-thisKey) and returns false if the difference is not invertible.
+func (cmb Combiner) lagrangeCoeff(thisKey ShamirPublicPoint, thatKey ShamirPublicPoint, lagCoeff []uint64) (ok bool) {
 
 	this := cmb.ringQP.NewRNSScalarFromUInt64(uint64(thisKey))
 	that := cmb.ringQP.NewRNSScalarFromUInt64(uint64(thatKey))
 
 	cmb.ringQP.SubRNSScalar(that, this, lagCoeff)
 
+	for _, d := range lagCoeff {
+		if d == 0 {
+			return false
+		}
+	}
+
 	cmb.ringQP.Inverse(lagCoeff)
 
 	cmb.ringQP.MulRNSScalar(lagCoeff, that, lagCoeff)
+
+	return true
 }
 
 // BinarySize returns the serialized size of the object in bytes.
